@@ -97,6 +97,25 @@ def build() -> Tables:
           lambda: sorted(mod("src.orchestrator.core")._HARDCODED_EXCLUDE_EXTENSIONS))
     t.add("Orch", "defaultMaxWorkers", "Nat",
           lambda: mod("src.orchestrator.core").DEFAULT_MAX_WORKERS, 8)
+    # ---------------- magic numbers (C02)
+    def rust_suffixes():
+        import ast, inspect
+        m = mod("src.linters.magic_numbers.rust_analyzer")
+        src = inspect.getsource(m.RustMagicNumberAnalyzer._strip_type_suffix)
+        import textwrap
+        tree = ast.parse(textwrap.dedent(src))
+        for n in ast.walk(tree):
+            if isinstance(n, ast.Assign) and isinstance(n.value, ast.Tuple) and all(isinstance(e, ast.Constant) for e in n.value.elts):
+                return [e.value for e in n.value.elts]
+        raise LookupError("suffix tuple not found")
+    t.add("Magic", "rustSuffixes", "List String", rust_suffixes,
+          ["u8", "u16", "u32", "u64", "u128", "usize", "i8", "i16", "i32", "i64", "i128", "isize", "f32", "f64"])
+    t.add("Magic", "defaultAllowedInts", "List Int",
+          lambda: sorted(int(x) for x in mod("src.linters.magic_numbers.config").DEFAULT_ALLOWED_NUMBERS if float(x).is_integer()))
+    t.add("Magic", "defaultMaxSmallInteger", "Nat", lambda: mod("src.linters.magic_numbers.config").MagicNumberConfig().max_small_integer, 10)
+    t.add("Magic", "tsTestMarkers", "List String",
+          lambda: _ast_list_in_function(mod("src.linters.magic_numbers.linter").MagicNumberRule._is_test_file),
+          [".test.", ".spec.", "test_", "_test.", "/tests/", "/test/"])
     # ---------------- CLI commands, rule ids, per-command filters, extension map (C15, C06, C10)
     cli_tables(t)
     return t
@@ -143,6 +162,15 @@ def _ast_filter_candidates() -> list[tuple[str, str]]:
                 if len(n.args) > 1 and isinstance(n.args[1], ast.Constant):
                     out.add(("contains" if n.func.id.endswith("by_prefix") else "prefix", n.args[1].value))
     return sorted(out)
+
+
+def _ast_list_in_function(fn) -> list[str]:
+    import ast, inspect, textwrap
+    tree = ast.parse(textwrap.dedent(inspect.getsource(fn)))
+    for n in ast.walk(tree):
+        if isinstance(n, (ast.List, ast.Tuple)) and n.elts and all(isinstance(e, ast.Constant) and isinstance(e.value, str) for e in n.elts):
+            return [e.value for e in n.elts]
+    raise LookupError("no string list literal")
 
 
 def _passes(kind: str, lit: str, rid: str) -> bool:
